@@ -902,7 +902,9 @@ def rules(tier):
             # C12-da: the OMEN level read from omen_keyspace.txt kept as a string
             ('C07.R22', _shared_rule('c07', 'r22_keyspace_types')),
             # mutation sweep: a base structure means the same transitions to the loader as to the trainer
-            ('C07.R23', _shared_rule('c14', 'r20_structure_tokeniser'))]
+            ('C07.R23', _shared_rule('c14', 'r20_structure_tokeniser')),
+            # mutation sweep: IP.level / CP.level mean the same to the scorer as to the guesser
+            ('C07.R24', _shared_rule('c11', 'r20_scorer_table_fields'))]
 
 
 META = {
